@@ -20,4 +20,7 @@ VARIANTS = [
     V('benign-half-diff', F, ("L = (a - midpoint_ab)", "L = (a - b) / 2"), 'silent'),
     V('unsound-sphere-prerejection', F, ("abs_obstruct = np.abs(L)\n", "abs_obstruct = np.abs(L)\n            if midpoint_ab @ midpoint_ab > extents @ extents + L @ L:\n                continue\n"), 'fire', 'not a separating-axis inequality'),
     V('benign-sound-sphere-prerejection', F, ("abs_obstruct = np.abs(L)\n", "abs_obstruct = np.abs(L)\n            if np.linalg.norm(midpoint_ab) > np.linalg.norm(extents) + np.linalg.norm(L):\n                continue\n"), 'silent'),
+    V('shared-default-obstruction-list', F, [("def __init__(self, origin = None):", "def __init__(self, origin = None, obstructions = []):"), ("self.obstructions = []", "self.obstructions = obstructions")], 'fire', 'R15.4'),
+    V('benign-given-or-fresh-obstruction-list', F, [("def __init__(self, origin = None):", "def __init__(self, origin = None, obstructions = None):"), ("self.obstructions = []", "self.obstructions = list(obstructions) if obstructions is not None else []")], 'silent'),
+    V('class-level-obstruction-list', F, ("self.obstructions = []\n", "pass\n"), 'fire', 'R15.4'),
 ]
